@@ -8,6 +8,7 @@ arbitrary state `s`; `life c now ops` = the same from a freshly constructed `Irc
 -/
 import LimnoriaModel.C19.Fresh
 import LimnoriaModel.C19.Reconnect
+import LimnoriaModel.C19.Reentrant
 namespace C19
 open Py List
 
